@@ -21,10 +21,16 @@ const rule = "case = rapid-drawn write program (puts, deletes, transactions, bat
 	"and a full scan equal prefix state S_p of the issued history with lower <= p <= acked+1 (lower = acked under SyncImmediate and " +
 	"after a clean close); then the next round continues on the same directory; last: clean close + reopen is exact. " +
 	"non-trivial = a crash strictly inside an operation (site is not an idle point) or a reopen with more log than one memtable; " +
-	"distinct by (program hash, resolved crash points). TestPropExhaustive enumerates ALL (site, hit) crash points of small programs."
+	"distinct by (program hash, resolved crash points). One case in eight is built so that the process dies with the log file ending at or " +
+	"within a few bytes of a record header (sizes computed so that the 64 KiB log buffer is written out exactly there). " +
+	"TestPropConcurrentCrash: 2-5 client goroutines put fresh keys while a maintenance goroutine flushes, the process dies at a drawn " +
+	"(site, hit) after an optional pause of the dying goroutine; oracle over the write(2) log of issue/ack events: survivors are exactly " +
+	"issued bytes, a prefix per client, every acknowledged write under synchronous logging, and no write survives when a write " +
+	"acknowledged before it was issued is lost; non-trivial there = died at the site with acknowledged writes and cross-client pairs to judge. " +
+	"TestPropExhaustive enumerates ALL (site, hit) crash points of small programs."
 
 func TestMain(m *testing.M) {
-	if os.Getenv("VERIF_CHILD_SPEC") != "" {
+	if os.Getenv("VERIF_CHILD_SPEC") != "" || os.Getenv("VERIF_CONC_SPEC") != "" {
 		// crash child: no evidence, no silence games beyond stdout
 		ev.Silence()
 		os.Exit(m.Run())
@@ -38,6 +44,13 @@ func TestMain(m *testing.M) {
 
 // TestChild is the entry point of the re-executed crash child.
 func TestChild(t *testing.T) {
+	if cs := os.Getenv("VERIF_CONC_SPEC"); cs != "" {
+		if err := concChildMain(cs); err != nil {
+			fmt.Fprintln(os.Stderr, "CHILD-ERROR:", err)
+			os.Exit(3)
+		}
+		return
+	}
 	sp := os.Getenv("VERIF_CHILD_SPEC")
 	if sp == "" {
 		t.Skip("not a child")
@@ -52,6 +65,7 @@ func TestChild(t *testing.T) {
 type Doc struct {
 	Property string          `json:"property"`
 	Case     drive.CrashCase `json:"case"`
+	Conc     *ConcCase       `json:"conc,omitempty"` // concurrent variant (conc_test.go); Case is unused then
 	Failure  string          `json:"failure,omitempty"`
 }
 
@@ -262,7 +276,15 @@ func TestReplay(t *testing.T) {
 	if err := json.Unmarshal(b, &d); err != nil {
 		t.Fatal(err)
 	}
-	f, _ := drive.RunCrashCase(&d.Case, true, nil)
+	var f *drive.Failure
+	if d.Conc != nil {
+		// schedule dependent: re-execute the workload with the recorded crash point
+		for i := 0; i < 12 && f == nil; i++ {
+			f, _, _ = runConc(d.Conc, true)
+		}
+	} else {
+		f, _ = drive.RunCrashCase(&d.Case, true, nil)
+	}
 	if f != nil {
 		ev.WriteReplayResult(ev.ReplayResult{File: fn, Outcome: "fail", Signature: f.Sig, Message: f.Msg})
 		return
